@@ -120,6 +120,10 @@ def remove (c : Lru) (k : Key) : Lru × Res :=
 
 def externalDelete (c : Lru) (k : Key) : Lru := { c with files := eraseKey c.files k }
 
+/-- another process stores a file at a key's path behind the cache's back (a directory shared between servers): the index does
+    not know it until the next start-up scan; a lookup of that key is a miss and touches nothing -/
+def externalAdd (c : Lru) (k : Key) (n : Nat) : Lru := { c with files := eraseKey c.files k ++ [(k, n)] }
+
 /-- drop the value and open the directory again; `order` lists the files oldest-mtime first -/
 def reopen (c : Lru) (order : List (Key × Nat)) : Lru :=
   let fresh : Lru := { cap := c.cap, files := order, nextHandle := c.nextHandle }
